@@ -172,7 +172,7 @@ LEAN_TYPE = {'Int': 'Int', 'Str': 'Str', 'Bytes': 'Str', 'Bool': 'Bool', 'TD': '
              'PyDate': 'PyDate', 'PyDateTime': 'PyDateTime', 'PyTime': 'PyTime', 'None': 'Unit', 'StrList': 'List Str',
              'Truth': 'Bool', 'Char': 'Char', 'OptInt': 'Option Int', 'Builder': 'Str', 'IntList': 'List Int',
              'Unbound:Int': 'Option Int', 'D': 'Trig', 'OptD': 'Option Trig', 'TDS': 'Int', 'OptTDS': 'Option Int', 'DList': 'List Trig',
-             'ATList': 'List AT', 'Comp': 'Comp', 'CompList': 'List Comp', 'Fn:Comp:Bool': 'Comp → Bool', 'Object': 'Unit', 'U:PyDDD': 'PyDDD', 'IV': 'PyIV', 'Vals': 'PyVals', 'Val': 'Val', 'ValList': 'List Val',
+             'ATList': 'List AT', 'Comp': 'Comp', 'CompList': 'List Comp', 'Fn:Comp:Bool': 'Comp → Bool', 'Object': 'Unit', 'U:PyDDD': 'PyDDD', 'U:RVals': 'PyOneMany RV', 'IV': 'PyIV', 'Vals': 'PyVals', 'Val': 'Val', 'ValList': 'List Val',
              'Store': 'CDict.Store V', 'StepOut': 'CDict.Store V × CDict.Out V', 'V': 'V', 'OptV': 'Option V', 'Msg': 'Unit', 'ExcVal': 'Exc', 'Item': 'PyItem', 'ItemList': 'List PyItem', 'EntryList': 'List Entry'}
 
 
@@ -192,13 +192,16 @@ def lean_type(t):
         return 'PyResult ' + lean_type(t[7:])
     if t.startswith('Tuple:'):
         return t[6:]
+    if t.startswith('Pairs:'):
+        inner = lean_type(t[6:])
+        return f'List (Str × {"(" + inner + ")" if " " in inner else inner})'
     return LEAN_TYPE.get(t, t)
 
 
 def opaque_types(texts):
     """the opaque type parameters (single capital names that are no Lean type) mentioned in these Lean types"""
     known = {'Str', 'Int', 'Bool', 'Nat', 'Unit', 'Py', 'List', 'Option', 'Char', 'Exc', 'TD', 'Trig', 'Comp', 'Val', 'Entry',
-             'PyVals', 'PyItem', 'PyIV', 'PyDate', 'PyTime', 'PyDateTime', 'PyResult', 'Loop', 'Type', 'CDict', 'SE', 'Store', 'Out'}
+             'PyVals', 'PyItem', 'PyIV', 'PyDate', 'PyTime', 'PyDateTime', 'PyResult', 'PyOneMany', 'PyDDD', 'Loop', 'Type', 'CDict', 'SE', 'Store', 'Out'}
     out = []
     for t in texts:
         for w in re.findall(r"(?<![\w.'])[A-Z][A-Za-z]*(?![\w.'])", t):
@@ -326,6 +329,24 @@ TARGETS = [
     Target('prop.py', 'vPeriod', 'from_ical', 'vPeriod_from_ical', None, {},
            {'vDDDTypes.from_ical': ('pfun', 'ddd_from_ical', ['Str'], 'U:PyDDD', {'timezone': 'None'})}, False, 'dec',
            {'ical': 'Str', 'timezone': 'None'}),
+    # ---- recurrence rules (C19): vRecur.parse_type / from_ical / to_ical.  The rule under construction is an opaque `R`
+    # (a CaselessDict), a part class an opaque `F`, a part value an opaque `RV`; what is stored under a key is one value or
+    # a sequence of them (the union `RVals`, told apart by `isinstance(vals, SEQUENCE_TYPES)`)
+    Target('prop.py', 'vRecur', 'parse_type', 'vRecur_parse_type', None, {},
+           {'cls.types.get(key, vText)': ('expr', 'type_of', ['key'], 'F'),
+            'parser.from_ical(v)': ('pexpr', 'part_from', ['parser', 'v'], 'RV')}, False, 'recur',
+           {'key': 'Str', 'values': 'Str'}, None, 'List:RV'),
+    Target('prop.py', 'vRecur', 'from_ical', 'vRecur_from_ical', None, {},
+           {'cls.types.get(key, vText)': ('expr', 'type_of', ['key'], 'F'),
+            'parser.from_ical(v)': ('pexpr', 'part_from', ['parser', 'v'], 'RV'),
+            'cls()': ('expr', 'new_rule', [], 'R'), 'cls(recur)': ('expr', 'init_rule', ['recur'], 'R'),
+            'recur[]=': ('setitem', 'set_item', 'Str', 'List:RV')}, False, 'recur', {'ical': 'Str'}, None, 'R'),
+    Target('prop.py', 'vRecur', 'to_ical', 'vRecur_to_ical', None, {},
+           {'self.sorted_items()': ('expr', 'sorted_items', [], 'Pairs:U:RVals'),
+            'self.types.get(key, vText)': ('expr', 'type_of', ['key'], 'F'),
+            'typ(val).to_ical()': ('pexpr', 'part_to', ['typ', 'val'], 'Bytes'),
+            'from_unicode': ('fun', 'from_unicode', ['Bytes'], 'Bytes')}, False, 'recur', None, None, 'Bytes',
+           {'result': 'List:Bytes'}),
     # ---- parser helpers
     Target('parser.py', None, 'dquote', 'dquote', None, {}, {'QUOTABLE.search': ('pred', 'quotable_search')}, False,
            'parser', {'val': 'Str'}),
@@ -503,7 +524,10 @@ class Widen(Exception):
 
 
 # union types `U:<Name>`: member type -> constructor; (Python classes an instance test names -> the constructors it accepts)
-UNIONS = {'PyDDD': {'members': {'PyDate': 'date', 'PyDateTime': 'dt', 'PyTime': 'time', 'TD': 'dur'},
+UNIONS = {'RVals': {'members': {'RV': 'one', 'List:RV': 'many'}, 'lean': 'PyOneMany RV',
+                    # SEQUENCE_TYPES of parser_tools.py must be (list, tuple): looked up on every run
+                    'classes': {'SEQUENCE_TYPES': ['many']}},
+          'PyDDD': {'members': {'PyDate': 'date', 'PyDateTime': 'dt', 'PyTime': 'time', 'TD': 'dur'},
                     'pair': 'period',       # a tuple display of two values of the union
                     'classes': {'datetime': ['dt'], 'date': ['date', 'dt'], 'time': ['time'], 'timedelta': ['dur'], 'tuple': ['period']}}}
 
@@ -565,7 +589,7 @@ def assigned(nodes):
         for n in ast.walk(s):
             name = n.id if isinstance(n, ast.Name) and isinstance(n.ctx, ast.Store) else \
                 n.func.value.id if is_append(n) else "out'" if isinstance(n, ast.Yield) else \
-                n.targets[0].value.id if isinstance(n, ast.Assign) and len(n.targets) == 1 and isinstance(n.targets[0], ast.Attribute) \
+                n.targets[0].value.id if isinstance(n, ast.Assign) and len(n.targets) == 1 and isinstance(n.targets[0], (ast.Attribute, ast.Subscript)) \
                 and isinstance(n.targets[0].value, ast.Name) and n.targets[0].value.id != 'self' else None
             if name is not None and name not in out:
                 out.append(name)
@@ -692,19 +716,42 @@ class Fn:
                 and 'isinstance' not in self.modnames and len(node.args) == 2 and not node.keywords \
                 and isinstance(node.args[0], ast.Name) and node.args[0].id in env and isinstance(node.args[1], ast.Name):
             typ, what = env[node.args[0].id].type, node.args[1].id
+            xv = env[node.args[0].id]
+            if typ.startswith('U:') and xv.lean in self.narrow and what in UNIONS[typ[2:]]['classes']:
+                # a value of a union already known to be of one member
+                u, nv = UNIONS[typ[2:]], self.narrow[xv.lean]
+                ctor = u.get('pair') if nv.type == 'Tuple' else u['members'].get(nv.type)
+                if ctor is not None:
+                    return ctor in u['classes'][what]
             if what == 'str' and 'str' not in self.modnames and typ in ('None', 'Str'):
                 return typ == 'Str'
             if what == 'cls' and self.cls is not None and typ in ('None', 'Str', 'Int') and self.plain_class(self.cls):
                 return False        # a str / int / None is not an instance of a class whose bases (in this file) end in object
         return None
 
-    def plain_class(self, c, seen=0):
-        """every base of the class is a class of this file with that property (so: no builtin among its ancestors)"""
+    def plain_class(self, c, seen=0, tree=None):
+        """no ancestor of the class is str / int / another builtin a str or int could be an instance of: every base is a
+        class of this file or of an icalendar module with that property, or OrderedDict / dict / list / object"""
         if seen > 6:
             return False
+        tree = tree or self.tree
         for b in c.bases:
-            d = next((n for n in self.tree.body if isinstance(n, ast.ClassDef) and isinstance(b, ast.Name) and n.name == b.id), None)
-            if d is None or not self.plain_class(d, seen + 1):
+            if not isinstance(b, ast.Name):
+                return False
+            how = module_bindings(tree).get(b.id)
+            if how == 'def':
+                d = next((n for n in tree.body if isinstance(n, ast.ClassDef) and n.name == b.id), None)
+                if d is None or not self.plain_class(d, seen + 1, tree):
+                    return False
+            elif how == 'collections.OrderedDict' or (how is None and b.id in ('dict', 'list', 'object')):
+                continue        # a str / int / None is no mapping and no list
+            elif how is not None and how.startswith('icalendar.'):
+                mod = how.rsplit('.', 1)[0]
+                other = X.parse(os.path.join(self.src_dir, *mod.split('.')[1:]) + '.py')
+                d = next((n for n in other.body if isinstance(n, ast.ClassDef) and n.name == b.id), None)
+                if d is None or not self.plain_class(d, seen + 1, other):
+                    return False
+            else:
                 return False
         return True
 
@@ -1493,6 +1540,10 @@ class Fn:
         if isinstance(fn, ast.Attribute) and isinstance(fn.value, ast.Name) and fn.value.id not in env and callee not in self.t.externals \
                 and self.modnames.get(fn.value.id) == 'def' and (fn.value.id, fn.attr) in self.registry:
             return self.call_class_method(node, fn.value.id, fn.attr, env)
+        if isinstance(fn, ast.Attribute) and isinstance(fn.value, ast.Name) and fn.value.id == 'cls' and 'cls' not in env \
+                and callee not in self.t.externals and (self.t.cls, fn.attr) in self.registry \
+                and [ast.unparse(x) for x in self.func.decorator_list] == ['classmethod']:
+            return self.call_class_method(node, self.t.cls, fn.attr, env)
         if isinstance(fn, ast.Attribute) and isinstance(fn.value, ast.Call) and isinstance(fn.value.func, ast.Name) \
                 and callee not in self.t.externals and ast.unparse(node) not in self.t.externals \
                 and fn.value.func.id not in env and self.modnames.get(fn.value.func.id) == 'def' \
@@ -1527,6 +1578,8 @@ class Fn:
             e = self.t.externals[callee]        # a method of `self` that stays external: a function of the component
             f = self.param(e[1], f'Comp → {lean_type(e[2])}')
             return V(f"({f.lean} (Comp.mk name' props' subs'))", e[2], None)
+        if callee == 'isinstance' and 'isinstance' not in self.modnames and self.static(node, env) is not None:
+            return V('true' if self.static(node, env) else 'false', 'Bool', None)      # decided by what is known of the value
         if callee == 'isinstance' and 'isinstance' not in self.modnames and len(node.args) == 2 and not node.keywords \
                 and isinstance(node.args[1], ast.Name) and node.args[1].id == 'list' and 'list' not in self.modnames:
             x = self.expr(node.args[0], env)
@@ -1615,8 +1668,7 @@ class Fn:
         if isinstance(fn, ast.Attribute):
             if node.keywords:
                 self.fail(node, f'call with keyword arguments `{ast.unparse(node)[:50]}`')
-            if fn.attr == 'encode' and len(node.args) == 1 and isinstance(node.args[0], ast.Constant) \
-                    and node.args[0].value == 'utf-8':
+            if fn.attr == 'encode' and len(node.args) == 1 and self.is_utf8(node.args[0]):
                 v = self.expr(fn.value, env)
                 if v.type != 'Str':
                     self.fail(node, f'.encode on a value of type {v.type}')
@@ -1637,6 +1689,12 @@ class Fn:
                 b = self.expr(node.args[0], env)
                 if b.type == 'Builder':         # a list of str that was only appended to: its concatenation
                     return V(b.lean, 'Str', None)
+            if fn.attr == 'join' and len(node.args) == 1 and isinstance(node.args[0], ast.Name) and node.args[0].id in env \
+                    and env[node.args[0].id].type in ('List:Bytes', 'List:Str', 'StrList'):
+                sep, xs = self.expr(fn.value, env), env[node.args[0].id]
+                et = 'Str' if xs.type == 'StrList' else xs.type[5:]
+                if sep.type == et:
+                    return V(f'(joinWith {sep.lean} {xs.lean})', et, None)
             if fn.attr == 'join' and len(node.args) == 1 and isinstance(node.args[0], ast.GeneratorExp):
                 g, sep = node.args[0], self.expr(fn.value, env)
                 c = g.generators[0]
@@ -1651,6 +1709,14 @@ class Fn:
                         elt = self.lazily(self.expr, g.elt, dict(env, **{c.target.id: V(x, 'Int', None)}))
                         if elt.type == 'Str':
                             return V(f'(joinWith {sep.lean} ({rng.lean}.map (fun {x} => {elt.lean})))', 'Str', None)
+                if sep.type in ('Str', 'Bytes') and len(g.generators) == 1 and not c.ifs and not c.is_async and isinstance(c.target, ast.Name):
+                    it0 = self.expr(c.iter, env)
+                    if it0.type.startswith('List:'):     # over a list of objects: the elements first (the first exception ends it), then the join
+                        lc = ast.copy_location(ast.ListComp(elt=g.elt, generators=g.generators), node)
+                        parts = self.e_ListComp(lc, env)
+                        if parts.type == 'List:' + sep.type:
+                            return V(f'(joinWith {sep.lean} {parts.lean})', sep.type, None)
+                        self.fail(node, f'join of a list of {parts.type[5:]} with a {sep.type}')
                 if sep.type == 'Str' and len(g.generators) == 1 and not c.ifs and not c.is_async and isinstance(c.target, ast.Name):
                     it = self.expr(c.iter, env)
                     if it.type == 'StrList':
@@ -1964,6 +2030,18 @@ class Fn:
             return ['throw Exc.valueError']      # the message is not part of the model
         if isinstance(s, ast.Try):
             return self.try_(s, rest, env, tail)
+        if isinstance(s, ast.Assign) and len(s.targets) == 1 and isinstance(s.targets[0], ast.Subscript) \
+                and isinstance(s.targets[0].value, ast.Name) and s.targets[0].value.id in env \
+                and self.t.externals.get(s.targets[0].value.id + '[]=', ('',))[0] == 'setitem':
+            e, name = self.t.externals[s.targets[0].value.id + '[]='], s.targets[0].value.id
+            v = self.expr(s.value, env)      # the right side first, then the key
+            k = self.expr(s.targets[0].slice, env)
+            obj = env[name]
+            if (k.type, v.type) != (e[2], e[3]) or obj.elts is not None:
+                self.fail(s, f'`{ast.unparse(s)[:50]}`: key {k.type}, value {v.type}; declared {e[2]}, {e[3]}')
+            f = self.param(e[1], f'{lean_type(obj.type)} → {lean_type(e[2])} → {lean_type(e[3])} → {lean_type(obj.type)}')
+            env, line = self.bind(env, name, V(f'({f.lean} {obj.lean} {k.lean} {v.lean})', obj.type, None))
+            return self.take_pre() + [line] + self.block(rest, env, tail)
         if isinstance(s, ast.Assign) and len(s.targets) == 1 and isinstance(s.targets[0], ast.Name):
             v = self.expr(s.value, env)
             if s.targets[0].id.startswith('self__') and getattr(self, 'fields', None) is not None:
@@ -2092,11 +2170,52 @@ class Fn:
 
     def try_general(self, s, rest, env, tail):
         """`try: BODY except <classes> [as e]: HANDLER .. [else: ELSE]`"""
-        if s.finalbody or any(isinstance(n, (ast.Return, ast.Break, ast.Continue)) for st in s.body for n in ast.walk(st)):
-            self.fail(s, 'try with finally, or with return / break / continue in its body')
+        def escapes(stmts, in_loop=False):      # a break / continue that would leave the try body
+            for st in stmts:
+                if isinstance(st, (ast.Break, ast.Continue)) and not in_loop:
+                    return True
+                for f in ('body', 'orelse', 'handlers', 'finalbody'):
+                    sub = getattr(st, f, None)
+                    if isinstance(sub, list) and sub and escapes([x for h in sub for x in (h.body if isinstance(h, ast.ExceptHandler) else [h])],
+                                                                 in_loop or (isinstance(st, (ast.For, ast.While)) and f == 'body')):
+                        return True
+            return False
+        rets = [n for st in s.body for n in ast.walk(st) if isinstance(n, ast.Return)]
+        returning = len(rets) == 1 and s.body[-1] is rets[0] and not s.orelse and not self.loopctx
+        if s.finalbody or escapes(s.body) or (rets and not returning):
+            self.fail(s, 'try with finally, with break / continue leaving its body, or with a return that is not its last statement')
         if not self.monadic:
             raise NeedMonad()
         ind = lambda ls: ['  ' + x for x in ls]   # noqa: E731
+        if returning:       # the body computes what the function returns; a handler may still take over
+            self.fresh += 1
+            r = f"r{self.fresh}'"
+            body = self.block(s.body, env, Tail([], lambda e: self.fail(s, 'a path of the try body does not return')))
+            body[-1] += ')'
+            rt = lean_type(self.rtype)
+            lines = [f'let {r} : Py {"(" + rt + ")" if " " in rt else rt} := (do'] + ind(body) + [f'match {r} with']
+            self.fresh += 1
+            ev = f"e{self.fresh}'"
+            lines.append(f'| .error {ev} => do')
+            hl, depth = [], 0
+            for h in s.handlers:
+                cls = self.handler_classes(h, s)
+                henv = dict(env)
+                if h.name:
+                    henv[h.name] = V(ev, 'ExcVal', None)
+                self.handling.append(ev)
+                try:
+                    hb = self.block(h.body + rest, henv, tail)
+                finally:
+                    self.handling.pop()
+                if cls is None:
+                    hl += ['  ' * depth + x for x in hb]
+                    break
+                hl += ['  ' * depth + f'if caught {cls} {ev} then'] + ['  ' * (depth + 1) + x for x in hb] + ['  ' * depth + 'else']
+                depth += 1
+            else:
+                hl.append('  ' * depth + f'throw {ev}')
+            return lines + ind(hl) + [f"| .ok v{r} => do", f"  pure v{r}"]
         later = reads(s.orelse + rest) | set(tail.names)
         merged = [n for n in self.assigned_env(s.body, env) if n in later]
         ends = []
@@ -2228,7 +2347,12 @@ class Fn:
         for n in names:
             if not (isinstance(n, ast.Name) and n.id in u['classes']):
                 self.fail(node, f'instance test of a {x.type[2:]} for `{ast.unparse(n)}`')
-            if n.id != 'tuple' and self.modnames.get(n.id) != 'datetime.' + n.id:
+            if n.id == 'SEQUENCE_TYPES':      # a module constant of parser_tools.py: it must be (list, tuple)
+                pt = X.parse(os.path.join(self.src_dir, 'parser_tools.py'))
+                val = X.find_assign(pt.body, 'SEQUENCE_TYPES')
+                if self.modnames.get(n.id) != 'icalendar.parser_tools.SEQUENCE_TYPES' or val is None or ast.unparse(val) != '(list, tuple)':
+                    self.fail(node, 'SEQUENCE_TYPES is not `(list, tuple)` of icalendar.parser_tools')
+            elif n.id != 'tuple' and self.modnames.get(n.id) != 'datetime.' + n.id:
                 self.fail(node, f'`{n.id}` is not the class of the datetime module')
             acc += [c for c in u['classes'][n.id] if c not in acc]
         allc = list(u['members'].values()) + ([u['pair']] if 'pair' in u else [])
@@ -2265,11 +2389,20 @@ class Fn:
             do = ' do' if self.monadic else ''
             old_ex = dict(self.excluded)
             pre = self.take_pre()
+            remaining = [c for c in left if c not in acc]
+            pat_no = '_'
+            old_nar = dict(self.narrow)
             try:
                 self.excluded[x.lean] = set(self.excluded.get(x.lean, ())) | set(acc)
+                u_all = list(UNIONS[x.type[2:]]['members'].values()) + ([UNIONS[x.type[2:]]['pair']] if 'pair' in UNIONS[x.type[2:]] else [])
+                if len(remaining) == 1 and len(left) == len(u_all):     # two members in all: the value is known in this branch too
+                    self.fresh += 1
+                    pat_no, val_no = self.union_payload(x, remaining[0], f"n{self.fresh}'")
+                    self.narrow[x.lean] = val_no
                 nb = self.block(no + rest, env, tail)
             finally:
                 self.excluded = old_ex
+                self.narrow = old_nar
             if len(acc) == 1:
                 self.fresh += 1
                 v = f"n{self.fresh}'"
@@ -2280,14 +2413,14 @@ class Fn:
                     yb = self.block(yes + rest, env, tail)
                 finally:
                     self.narrow = old
-                return pre + [f'match {x.lean} with', f'| {pat} =>{do}'] + ind(yb) + [f'| _ =>{do}'] + ind(nb)
+                return pre + [f'match {x.lean} with', f'| {pat} =>{do}'] + ind(yb) + [f'| {pat_no} =>{do}'] + ind(nb)
             try:
                 self.excluded[x.lean] = set(self.excluded.get(x.lean, ())) | {c for c in left if c not in acc}
                 yb = self.block(yes + rest, env, tail)
             finally:
                 self.excluded = old_ex
             pats = ' | '.join('.' + c + (' _ _' if c == UNIONS[x.type[2:]].get('pair') else ' _') for c in acc)
-            return pre + [f'match {x.lean} with', f'| {pats} =>{do}'] + ind(yb) + [f'| _ =>{do}'] + ind(nb)
+            return pre + [f'match {x.lean} with', f'| {pats} =>{do}'] + ind(yb) + [f'| {pat_no} =>{do}'] + ind(nb)
         st = self.static(s.test, env)
         if st is not None:      # decided by a specialised argument: only the branch taken is translated
             skipped = s.orelse if st else s.body
@@ -2475,9 +2608,9 @@ class Fn:
             itv = self.expr(it, env)
         if itv.type == 'Vals':      # iterating what `self[name]` gave: a TypeError unless it is a list
             itv = self.hoist(s, f'PyVals.elems {itv.lean}', 'ValList')
-        if not (itv.type in ITER or itv.type.startswith('List:')) or s.orelse:
+        if not (itv.type in ITER or itv.type.startswith('List:') or itv.type.startswith('Pairs:')) or s.orelse:
             self.fail(s, f'`for` over a value of type {itv.type}' if itv.type not in ITER else '`for .. else`')
-        if cname in self.pairtarget and itv.type != 'ItemList':
+        if cname in self.pairtarget and itv.type != 'ItemList' and not itv.type.startswith('Pairs:'):
             self.fail(s, f'`for {ast.unparse(tgt)}` over a value of type {itv.type} (only a list of pairs (name, value))')
         return self.loop(s, rest, env, tail, iname, cname, itv, None)
 
@@ -2505,7 +2638,7 @@ class Fn:
         asg = self.assigned_env(s.body, env)
         stored = {n.id for st in s.body for n in ast.walk(st) if isinstance(n, ast.Name) and isinstance(n.ctx, ast.Store)}
         asg = [n for n in asg if not (n in targets and n not in stored)]    # `v.attr = x` on the loop variable: local to the iteration
-        if targets & set(asg):
+        if (targets - set(self.pairtarget.get(cname, ()))) & set(asg):     # `for a, b in ..: a = ..` rebinds a within the iteration
             self.fail(s, 'the loop body assigns the loop variable')
         state = [n for n in asg if n in env and n not in targets]
         later = reads(rest) | set(tail.names)
@@ -2548,7 +2681,7 @@ class Fn:
             if re.fullmatch(r"[A-Za-z_][\w']*", n) and n not in inner and word(n) and n not in [c[0] for c in caps]:
                 caps.append((n, typ))
         capsig = ('«EXTSIG»' if self.objself else '') + ''.join(f' ({n} : {lean_type(t)})' for n, t in caps)
-        if self.t.group in ('parse', 'alarm'):     # the opaque types the loop mentions
+        if self.t.group in ('parse', 'alarm', 'recur'):     # the opaque types the loop mentions
             ops = opaque_types([lean_type(t) for _, t in caps] + [lean_type(slots[n]) for n in state]
                                + ([lean_type(itv.type)] if itv is not None else []))
             capsig = ''.join(f' {{{o} : Type}}' for o in ops) + capsig
@@ -2656,10 +2789,16 @@ class Fn:
         for n in state:
             benv[n] = V(lname(n), slots[n], None)
         if cname:
-            benv[cname] = V(lname(cname), (ITER.get(itv.type) or itv.type[5:]) if itv is not None else 'Char', None)
+            benv[cname] = V(lname(cname), (ITER.get(itv.type) or ('Tuple:Str × ' + lean_type(itv.type[6:]) if itv.type.startswith('Pairs:') else itv.type[5:]))
+                            if itv is not None else 'Char', None)
         if cname in self.pairtarget:
-            benv[self.pairtarget[cname][0]] = V(f'{lname(cname)}.1', 'Str', None)
-            benv[self.pairtarget[cname][1]] = V(f'{lname(cname)}.2', 'IV', None)
+            pt = itv.type[6:] if itv.type.startswith('Pairs:') else 'IV'
+            if itv.type.startswith('Pairs:'):      # named, so that instance tests can tell what the value is
+                benv[self.pairtarget[cname][0]] = V(lname(self.pairtarget[cname][0]), 'Str', None)
+                benv[self.pairtarget[cname][1]] = V(lname(self.pairtarget[cname][1]), pt, None)
+            else:
+                benv[self.pairtarget[cname][0]] = V(f'{lname(cname)}.1', 'Str', None)
+                benv[self.pairtarget[cname][1]] = V(f'{lname(cname)}.2', pt, None)
         if iname:
             benv[iname] = V(lname(iname), 'Int', None)
         cur = lambda e: [e[n].lean for n in state]   # noqa: E731
@@ -2680,6 +2819,9 @@ class Fn:
             c = self.test(s.test, benv)
             test_lines = self.take_pre() + [c]
         body = self.block(s.body, benv, Tail(state, again))
+        if cname in self.pairtarget and itv is not None and itv.type.startswith('Pairs:'):
+            a, b = self.pairtarget[cname]
+            body = [f'let {lname(a)} : Str := {lname(cname)}.1', f'let {lname(b)} : {lean_type(itv.type[6:])} := {lname(cname)}.2'] + body
         return body, test_lines
 
     def translate(self):
@@ -2891,6 +3033,14 @@ HEADERS['parse'] = ['/- GENERATED by tools/py2lean.py (called from tools/extract
                     '   is a parameter.  `component = stack[-1] if stack else None` is an alias of the top of the stack. -/',
                     'import ICal.Model.PyRT', 'set_option linter.unusedVariables false',
                     'namespace ICal.Gen.BodiesParse', 'open ICal ICal.PyRT', '']
+NAMESPACE['recur'] = 'ICal.Gen.BodiesRecur'
+HEADERS['recur'] = ['/- GENERATED by tools/py2lean.py (called from tools/extract.py) from vRecur.parse_type / from_ical / to_ical of',
+                    '   src/icalendar/prop.py. Do not edit: regenerated on every run; lean/ICal/Lemmas/BodiesRecur.lean proves each equal',
+                    '   to the hand-written model (ICal/Model/Recur.lean).  The rule (a CaselessDict), the part classes and the part',
+                    '   values are opaque: everything done with them is a parameter.  What is stored under a key is one value or a',
+                    '   sequence (`PyOneMany`); `isinstance(vals, SEQUENCE_TYPES)` tells which. -/',
+                    'import ICal.Model.PyRTDec', 'set_option linter.unusedVariables false',
+                    'namespace ICal.Gen.BodiesRecur', 'open ICal ICal.PyRT', '']
 NAMESPACE['se'] = 'ICal.Gen.BodiesSE'
 HEADERS['se'] = ['/- GENERATED by tools/py2lean.py (called from tools/extract.py) from Event.end / Todo.end of src/icalendar/cal.py and',
                  '   tools.is_date. Do not edit: regenerated on every run; lean/ICal/Lemmas/BodiesSE.lean proves each equal to the',
@@ -3015,7 +3165,7 @@ def translate(src_dir, group='enc'):
         sig = ''.join(f' ({p} : {lean_type(ty)})' for p, ty in fn.used)
         opaque = sorted({e[3] for e in t.externals.values() if isinstance(e[0], str) and e[0] in ('pfun', 'expr') and e[3] not in LEAN_TYPE and e[3] != 'Object' and ':' not in e[3]})
         opaque = sorted(set(opaque) | {o for o in ('AT',) if re.search(r'\b' + o + r'\b', sig)})
-        if group in ('parse', 'alarm'):
+        if group in ('parse', 'alarm', 'recur'):
             opaque = opaque_types([lean_type(ty) for _, ty in fn.used] + [fn.rtype_lean or lean_type(fn.rtype)])
         sig = ''.join(f' {{{o} : Type}}' for o in opaque) + sig
         rt = fn.rtype_lean or lean_type(fn.rtype)
